@@ -51,7 +51,7 @@ RULE = (
     "malformed stream), non-trivial when the slice selects >=1 position and is not the full forward slice. indexed_shape: "
     "every tuple of length <=3/4 over 11 index atoms (None, Ellipsis, in/out-of-range ints, slices) on 3/5 shapes, "
     "non-trivial when non-empty. collapse: all pairs/triples of 6 plain/nested shapes x allow. operator metadata: unary part "
-    "of the class table, real->complex and explicit-input_dtype operands under every class, random trees (160/1500), "
+    "of the class table, real->complex and explicit-input_dtype operands under every class, random trees (160/4000), random stacks of random expressions (40/1200), "
     "non-trivial when the tree has an operation node, distinct by skeleton; stacks/freeze/Function configurations."
 )
 ASSUMPTIONS = [
@@ -339,7 +339,7 @@ def _part2(ctx):
     orc = G.oracle(env)
     om = common.Model("OpAlg")
     try:
-        n = ctx.n(160, 1500)
+        n = ctx.n(160, 4000)
         dmax = ctx.n(4, 7)
         bad = 0
         # every class x {neg, T, H, conj, gram, scalar kinds} first (finite), then random trees
@@ -437,7 +437,7 @@ def _part2(ctx):
         # stacks with a Lean model: declared shapes / dtypes / plain-vs-block, rejection kinds
         import opalg_stacks as S
 
-        S.model_tie(ctx, env, om, ctx.n(40, 500))
+        S.model_tie(ctx, env, om, ctx.n(40, 1200))
     finally:
         om.close()
 
